@@ -7,8 +7,8 @@ package c02
 import (
 	"crypto/sha256"
 	"encoding/hex"
-	"encoding/json"
 	"fmt"
+	"go/ast"
 	"go/parser"
 	"go/token"
 	"os"
@@ -359,6 +359,9 @@ func (b *builder) trim() {
 	})
 }
 
+// frameworkIdents: the top-level identifiers every generated package
+// declares whatever the document says. Seeded with a hand-written list and
+// completed at start-up from a probe generation (probeFramework).
 var frameworkIdents = map[string]bool{}
 
 func init() {
@@ -367,13 +370,78 @@ func init() {
 	}
 }
 
+const probeSpec = `{"openapi":"3.1.0","info":{"title":"t","version":"1"},
+"servers":[{"url":"https://zzq.example.com","x-ogen-server-name":"zzqsrv"}],
+"paths":{"/zzq":{"get":{"operationId":"zzqop","security":[{"zzqkey":[]}],"responses":{"200":{"description":"ok","content":{"application/json":{"schema":{"$ref":"#/components/schemas/Zzqtype"}}}}}}}},
+"webhooks":{"zzqhook":{"post":{"operationId":"zzqhookop","requestBody":{"required":true,"content":{"application/json":{"schema":{"$ref":"#/components/schemas/Zzqtype"}}}},"responses":{"200":{"description":"ok"}}}}},
+"components":{"schemas":{"Zzqtype":{"type":"object","required":["zzqa"],"properties":{"zzqa":{"type":"string"}}}},
+"securitySchemes":{"zzqkey":{"type":"apiKey","in":"header","name":"X-Zzq"}}}}`
+
+// probeFramework generates a document whose own names all contain "zzq" with
+// every feature on and returns the other top-level identifiers.
+func probeFramework() ([]string, error) {
+	j := &Job{Kind: "probe", Text: probeSpec, Feat: fixedSets()[1]}
+	res, _ := j.generate()
+	if !res.OK() {
+		return nil, fmt.Errorf("probe document does not generate: %s: %s", res.Stage, res.ErrText())
+	}
+	set := map[string]bool{}
+	for n, b := range res.FS.Files {
+		if strings.HasSuffix(n, "_test.go") {
+			continue
+		}
+		f, err := parser.ParseFile(token.NewFileSet(), n, b, 0)
+		if err != nil {
+			return nil, fmt.Errorf("probe package: %v", err)
+		}
+		for _, d := range f.Decls {
+			switch d := d.(type) {
+			case *ast.FuncDecl:
+				if d.Recv == nil {
+					set[d.Name.Name] = true
+				}
+			case *ast.GenDecl:
+				for _, sp := range d.Specs {
+					switch sp := sp.(type) {
+					case *ast.TypeSpec:
+						set[sp.Name.Name] = true
+					case *ast.ValueSpec:
+						for _, id := range sp.Names {
+							set[id.Name] = true
+						}
+					}
+				}
+			}
+		}
+	}
+	var out []string
+	for n := range set {
+		if n == "_" || n == "init" || strings.Contains(strings.ToLower(n), "zzq") {
+			continue
+		}
+		out = append(out, n)
+		frameworkIdents[n] = true
+	}
+	sort.Strings(out)
+	return out, nil
+}
+
 // diagClass names the kind of the first compiler diagnostic.
 func diagClass(diag string) string {
 	first := ""
+	// a top-level redeclaration is the root of everything else the compiler says about that name
 	for _, l := range strings.Split(diag, "\n") {
-		if posRe.MatchString(strings.TrimPrefix(l, "./")) || strings.Contains(l, ".go:") {
+		if strings.Contains(l, "redeclared in this block") {
 			first = l
 			break
+		}
+	}
+	for _, l := range strings.Split(diag, "\n") {
+		if first != "" {
+			break
+		}
+		if posRe.MatchString(strings.TrimPrefix(l, "./")) || strings.Contains(l, ".go:") {
+			first = l
 		}
 	}
 	if first == "" {
@@ -406,10 +474,20 @@ func diagClass(diag string) string {
 	switch {
 	case strings.Contains(msg, "redeclared in this block"):
 		return "redeclared" + idc()
+	case strings.HasSuffix(strings.TrimSpace(msg), " redeclared"):
+		return "duplicate-member"
 	case strings.Contains(msg, "already declared"), strings.Contains(msg, "field and method with the same name"):
-		return "member-redeclared" + idc()
-	case strings.HasPrefix(msg, "undefined: "), strings.Contains(msg, " undefined ("):
-		return "undefined"
+		return "duplicate-member"
+	case strings.Contains(msg, " undefined (type "):
+		// x.f undefined (type T has no field or method f)
+		t := msg[strings.Index(msg, " undefined (type ")+len(" undefined (type "):]
+		t = strings.TrimLeft(strings.SplitN(t, " ", 2)[0], "*[]")
+		if frameworkIdents[t] {
+			return "missing-member/" + t
+		}
+		return "missing-member/generated-type"
+	case strings.HasPrefix(msg, "undefined: "):
+		return "undefined" + idc()
 	case strings.Contains(msg, "declared and not used"):
 		return "unused-variable"
 	case strings.Contains(msg, "imported and not used"):
@@ -508,6 +586,8 @@ type runner struct {
 	// violations of single-place hostile jobs, for attributing multi-place ones
 	singleViol map[string]string // slot -> signature of the violation it causes alone
 	pending    []pendingViol     // violations of multi-place jobs, not yet attributed
+	initFails  []any
+	baseFail   map[string]map[string]bool // feature set -> how the benign base document fails
 	final      bool
 	verdicts   map[string]verdict
 	genWall    time.Duration
@@ -597,6 +677,13 @@ func (x *runner) tally(j *Job, what string) {
 func (x *runner) signature(j *Job, vkind, dclass string) string {
 	switch j.Kind {
 	case "hostile":
+		// place + class of the string; when the compiler names the defect as a
+		// top-level redeclaration, the class says what is redeclared instead
+		// (the same defect is reached through strings of many classes: "Client",
+		// "client", "_Client", or a name that normalises to nothing)
+		if strings.HasPrefix(dclass, "redeclared/") {
+			return vkind + ":" + j.Slots[0].Place + "/redeclares-" + strings.TrimPrefix(dclass, "redeclared/")
+		}
 		return vkind + ":" + j.place()
 	case "multi":
 		var ps []string
@@ -606,7 +693,8 @@ func (x *runner) signature(j *Job, vkind, dclass string) string {
 		sort.Strings(ps)
 		return vkind + ":multi-place/" + strings.Join(ps, "+") + suffix(dclass)
 	}
-	return vkind + ":" + j.Kind + suffix(dclass)
+	// corpus, matrix, random, crafted, base documents: the kind of job says nothing about the defect
+	return vkind + ":document" + suffix(dclass)
 }
 
 func suffix(s string) string {
@@ -629,7 +717,21 @@ func (x *runner) violate(j *Job, o outcome, vkind, cmd, diag string) {
 		dclass = diagClass(diag)
 	}
 	sig := x.signature(j, vkind, dclass)
-	if j.Kind == "hostile" && len(j.Slots) == 1 {
+	x.mu.Lock()
+	switch {
+	case j.Kind == "base":
+		if x.baseFail[j.Feat.key()] == nil {
+			x.baseFail[j.Feat.key()] = map[string]bool{}
+		}
+		x.baseFail[j.Feat.key()][vkind+"|"+dclass] = true
+	case (j.Kind == "hostile" || j.Kind == "multi") && x.baseFail[j.Feat.key()][vkind+"|"+dclass]:
+		// the benign base document fails in the same way under this feature set:
+		// the hostile string is not what breaks the package
+		sig = vkind + ":document" + suffix(dclass)
+		x.r.Count("hostile_jobs_failing_like_the_benign_base_document", 1)
+	}
+	x.mu.Unlock()
+	if j.Kind == "hostile" && len(j.Slots) == 1 && !strings.Contains(sig, ":document") {
 		x.mu.Lock()
 		x.singleViol[slotKey(j.Slots[0])] = sig
 		x.mu.Unlock()
@@ -868,7 +970,17 @@ func (x *runner) runBatch(jobs []*Job, verbose bool) error {
 		if strings.HasPrefix(v.cmd, "go test") {
 			vk = "tests-not-compiling"
 			if v.initFail {
-				vk = "test-binary-fails-at-start"
+				// the package and its tests compiled and linked; the test binary then
+				// exited non-zero before running any test (package initialisation).
+				// "Compiles" holds, so this is tallied and shown, not alarmed.
+				r.Count("compiled_test_binaries_failing_at_start", 1)
+				x.tally(j, "compiles(test binary fails at start)")
+				x.mu.Lock()
+				if len(x.initFails) < 5 {
+					x.initFails = append(x.initFails, map[string]any{"job": j.ID, "slots": j.Slots, "features": j.Feat.key(), "output": clip(v.diag, 1500)})
+				}
+				x.mu.Unlock()
+				continue
 			}
 		}
 		x.violate(j, o, vk, v.cmd, v.diag)
@@ -904,7 +1016,7 @@ func Main(args []string) int {
 	}
 	cacheDir, cleanCache := ev.Scratch("c02cache")
 	defer cleanCache()
-	x := &runner{r: r, mod: mod, rej: map[string]map[string]int{}, out: map[string]map[string]int{}, rejEx: map[string]string{}, singleViol: map[string]string{}, verdicts: map[string]verdict{}}
+	x := &runner{r: r, mod: mod, rej: map[string]map[string]int{}, out: map[string]map[string]int{}, rejEx: map[string]string{}, singleViol: map[string]string{}, verdicts: map[string]verdict{}, baseFail: map[string]map[string]bool{}}
 	x.b = &builder{mod: mod, cacheDir: cacheDir, env: genlab.GoEnv("GOCACHE=" + cacheDir)}
 
 	if replay != nil {
@@ -914,6 +1026,10 @@ func Main(args []string) int {
 		if j.Feat.Features == nil {
 			j.Feat.Features = []string{}
 		}
+		if _, err := probeFramework(); err != nil {
+			fmt.Println("ERROR", err)
+			return 2
+		}
 		fmt.Printf("replay: job %s kind=%s features=%s slots: %s\n", j.ID, j.Kind, j.Feat.key(), describeSlots(j.Slots))
 		if err := x.runBatch([]*Job{&j}, true); err != nil {
 			fmt.Println("ERROR", err)
@@ -922,6 +1038,12 @@ func Main(args []string) int {
 		return r.Finish("replay of one stored job", 0, false)
 	}
 
+	fw, err := probeFramework()
+	if err != nil {
+		fmt.Println("ERROR", err)
+		return 2
+	}
+	r.Set("framework_identifiers_of_probe_package", fw)
 	jobs, info, err := workload(r)
 	if err != nil {
 		fmt.Println("ERROR", err)
@@ -931,8 +1053,11 @@ func Main(args []string) int {
 		// development aid: restrict the job list by id substring (evidence then says so)
 		var keep []*Job
 		for _, j := range jobs {
-			if strings.Contains(j.ID, f) {
-				keep = append(keep, j)
+			for _, alt := range strings.Split(f, ",") {
+				if strings.Contains(j.ID, alt) {
+					keep = append(keep, j)
+					break
+				}
 			}
 		}
 		jobs = keep
@@ -975,6 +1100,9 @@ func Main(args []string) int {
 	for k, v := range info {
 		r.Set(k, v)
 	}
+	if len(x.initFails) > 0 {
+		r.Set("compiled_test_binaries_failing_at_start_samples", x.initFails)
+	}
 	r.Set("rejections", x.rej)
 	r.Set("rejection_examples", x.rejEx)
 	r.Set("outcomes_by_place", x.out)
@@ -983,7 +1111,7 @@ func Main(args []string) int {
 	r.Assume("the compiler is the oracle: 'compiles' means go build and go test -vet=off -run '^$' of the installed toolchain succeed inside a scratch module that replaces github.com/ogen-go/ogen with the tree under test and uses the dependency versions of its go.sum")
 	r.Assume("jobs whose written files are byte-identical to those of an earlier job share that job's compiler verdict (the verdict is a function of the files)")
 	r.Assume("whether rejecting a document was necessary is not judged; a rejection only has to carry a non-empty diagnostic that does not read like a recovered panic")
-	js, _ := json.Marshal(info["feature_sets_pairwise"])
-	_ = js
+	r.Assume("a compiled test binary that exits non-zero before running any test (package initialisation) is tallied (compiled_test_binaries_failing_at_start), not alarmed: the package does compile")
+	r.Assume("a hostile-string job that fails exactly like the benign base document under the same feature set is reported under the document's signature; a multi-place violation that one of its places causes alone is reported under that place's signature only")
 	return r.Finish("generate+build jobs: corpus documents x feature sets (pairwise covering array over gen.AllFeatures, all-on, all-off, client/server/webhooks-only, defaults; all 2^11 subsets on three small documents in thorough), a base document with one hostile string at one of the places where document text becomes Go text (and PRNG multi-place combinations), PRNG documents over the feature grammar. Generation success must imply go build and go test -run '^$' success; WriteSource must not fail with ErrGoFormat/template errors; rejections must carry a diagnostic. distinct = (document hash, feature set)", r.N(200, 2500), false)
 }
